@@ -411,6 +411,25 @@ def run(ctx, impl_only=False):
         ths = [threading.Thread(target=worker, args=(t,)) for t in range(nthreads)]
         for th in ths: th.start()
         for th in ths: th.join()
+        # a second phase in which every thread does nothing but the bulk (numpy) distance jobs, over and over: the window in which two
+        # threads are inside that code at once is short, so it is visited often
+        numeric = [j for j, job in enumerate(jobs) if job[0] == 'diff_io' and isinstance(job[1], list) and job[1] and all(type(x) in (int, float) for x in job[1])]
+
+        def worker2(t):
+            import random
+            r_ = random.Random(ctx.seed * 977 + t)
+            for _ in range(12 if ctx.thorough() else 6):
+                order = list(numeric); r_.shuffle(order)
+                for j in order:
+                    try:
+                        r = compute(jobs[j])
+                    except Exception as e:
+                        r = 'raised ' + type(e).__name__
+                    if results[t].get(j) != r:
+                        results[t][j] = 'UNSTABLE'
+        ths = [threading.Thread(target=worker2, args=(t,)) for t in range(nthreads)]
+        for th in ths: th.start()
+        for th in ths: th.join()
     finally:
         sys.setswitchinterval(old)
     for t in range(nthreads):
